@@ -576,7 +576,8 @@ func main() {
 		"the handlers are called through VerifDispatch (client/network/verif_export.go), a copy of the body of Run's loop; gen_c18 re-extracts Run's command table and gate on every run and Lean compares them with the frozen copy",
 		"what lies behind the parsing layer (peer database, header acceptance, mempool matching, block queue) runs for real in the harness but is NOT modelled; the model's verdict is compared up to the point where the backend decides",
 		"client globals are initialised by the harness the way client/init.go + client/main.go do (synthetic easy-PoW chain from go/chainkit, empty mempool, temp-dir peers database)",
-		"blocktxn / cmpctblock payloads are compared with the model up to 40000 bytes (the executable model of these two loops is quadratic on Lean lists); at the full size limit only the real code is run",
+		"blocktxn / cmpctblock payloads are compared with the model up to 40000 bytes: the loops of the executable model are linear now (csimp forms proved equal, Props.C18.fast_loops_agree), but C09's Wire.txSize measures the whole unread rest per transaction and the duplicate-short-id test is a list search; at the full size limit only the real code is run",
+		"the peers database of the fulldb cases is a volatile qdb filled to exactly MaxPeersInDB+MaxPeersDeviation (±1) records through the public API; the concurrent scenario observes only what the Go runtime itself detects (concurrent map access, deadlock) - it is not run under the race detector",
 		"getmp counts between 2^24 and 2^62 are kept out of the generated stream: ProcessGetMP passes the peer's count as size hint to make(map) (authorised peers only; an out-of-memory abort cannot be observed in-process)",
 	}
 
